@@ -55,12 +55,25 @@ pub enum Op {
         /// the forger is the claimed party itself: ss is the real static-static secret, only es is zero
         #[serde(default)]
         insider: bool,
+        /// the forger leaves the ss step out altogether (what a reader that "mixes nothing" when the
+        /// DH fails would accept)
+        #[serde(default)]
+        skip_ss: bool,
     },
     /// header of file `a` with field `field` (1 ephemeral, 2 encrypted static, 3 encrypted payload)
     /// or the whole chunk stream (4) taken from file `b`
     Recombine { a: usize, b: usize, field: usize },
     /// party `to` runs key_decrypt on file `file`; `pub_of` is whose public key is passed as recipient_public
-    Deliver { file: usize, to: usize, pub_of: usize, caps: Vec<usize> },
+    Deliver {
+        file: usize,
+        to: usize,
+        pub_of: usize,
+        caps: Vec<usize>,
+        /// while this decryption is reading its input, the same party decrypts that other file on the same
+        /// thread (a source that is itself fed by a decryption): results must not mix
+        #[serde(default)]
+        nested: Option<usize>,
+    },
     /// kestrel key_encrypt to a small-order recipient key
     EncryptToSmallOrder { sender: usize, point: usize, high_bit: bool, plain: Plain },
     /// C08: the same plaintext, read script, ephemeral key and payload key under two identity pairs
@@ -129,6 +142,48 @@ fn kestrel_decrypt(r_priv: &[u8; 32], r_pub: &[u8; 32], f: &[u8], caps: &[usize]
     (o, sink.accepted)
 }
 
+/// key_decrypt of `f` from a source that, after 140 bytes have been handed out, runs a complete
+/// key_decrypt of `inner` (same party, same thread) before it continues.
+fn kestrel_decrypt_nested(r_priv: &[u8; 32], r_pub: &[u8; 32], f: &[u8], inner: &[u8], trace: &TraceRef) -> (Outcome, Vec<u8>) {
+    struct Nesting<'a> {
+        data: &'a [u8],
+        pos: usize,
+        inner: &'a [u8],
+        done: bool,
+        r_priv: [u8; 32],
+        r_pub: [u8; 32],
+    }
+    impl<'a> std::io::Read for Nesting<'a> {
+        fn read(&mut self, buf: &mut [u8]) -> std::io::Result<usize> {
+            if !self.done && self.pos >= 132 {
+                self.done = true;
+                let r = PrivateKey::try_from(&self.r_priv[..]).unwrap();
+                let rpk = PublicKey::try_from(&self.r_pub[..]).unwrap();
+                let mut sink = Vec::new();
+                let _ = kestrel_crypto::decrypt::key_decrypt(&mut &self.inner[..], &mut sink, &r, &rpk, AsymFileFormat::V1);
+            }
+            let n = buf.len().min(self.data.len() - self.pos);
+            buf[..n].copy_from_slice(&self.data[self.pos..self.pos + n]);
+            self.pos += n;
+            Ok(n)
+        }
+    }
+    let mut src = Nesting { data: f, pos: 0, inner, done: false, r_priv: *r_priv, r_pub: *r_pub };
+    let mut sink = ScriptedSink::new(WriteScript::default(), trace.clone());
+    let g = run_guarded(|| {
+        let r = PrivateKey::try_from(&r_priv[..]).unwrap();
+        let rpk = PublicKey::try_from(&r_pub[..]).unwrap();
+        kestrel_crypto::decrypt::key_decrypt(&mut src, &mut sink, &r, &rpk, AsymFileFormat::V1).map(|p| p.as_bytes().to_vec())
+    });
+    let o = match g {
+        Guarded::Returned(Ok(p)) => Outcome::Ok(Some(p)),
+        Guarded::Returned(Err(e)) => Outcome::Err(classify_dec(&e)),
+        Guarded::Panicked(m) => Outcome::Panic(m),
+        Guarded::Hang => Outcome::Hang,
+    };
+    (o, sink.accepted)
+}
+
 /// Reference forgery with explicit DH results.
 fn forge(e_pub: &[u8; 32], es: &[u8; 32], claimed: &[u8; 32], ss: &[u8; 32], recipient: &[u8; 32], payload: &[u8; 32], pt: &[u8], chunking: &[usize]) -> Vec<u8> {
     let mut sym = rn::Sym::init(&rf::MAGIC_KEY, recipient);
@@ -143,6 +198,25 @@ fn forge(e_pub: &[u8; 32], es: &[u8; 32], claimed: &[u8; 32], ss: &[u8; 32], rec
     out.extend_from_slice(&c);
     let fk = rf::file_key(payload, &sym.h);
     rf::write_chunks(&mut out, &fk, &[], pt, chunking);
+    out
+}
+
+/// Like `forge`, but the ss step can be omitted entirely.
+fn forge_opt(e_pub: &[u8; 32], es: &[u8; 32], claimed: &[u8; 32], ss: Option<&[u8; 32]>, recipient: &[u8; 32], payload: &[u8; 32], pt: &[u8]) -> Vec<u8> {
+    let mut sym = rn::Sym::init(&rf::MAGIC_KEY, recipient);
+    let mut out = rf::MAGIC_KEY.to_vec();
+    out.extend_from_slice(e_pub);
+    sym.mix_hash(e_pub);
+    sym.mix_key(es);
+    let c = sym.encrypt_and_hash(claimed);
+    out.extend_from_slice(&c);
+    if let Some(ss) = ss {
+        sym.mix_key(ss);
+    }
+    let c = sym.encrypt_and_hash(payload);
+    out.extend_from_slice(&c);
+    let fk = rf::file_key(payload, &sym.h);
+    rf::write_chunks(&mut out, &fk, &[], pt, &crate::gen::full_chunking(pt.len(), 65536));
     out
 }
 
@@ -189,7 +263,8 @@ impl Family for A4 {
                     }
                     7 => {
                         let insider = rng.chance(1, 3);
-                        Op::ForgeZero { point: rng.usize_below(7), high_bit: rng.chance(1, 3), claimed_small: !insider && rng.chance(1, 2), claimed: rng.usize_below(4), recipient: rng.usize_below(4), plain: plain(rng), insider }
+                        let claimed_small = !insider && rng.chance(1, 2);
+                        Op::ForgeZero { point: rng.usize_below(7), high_bit: rng.chance(1, 3), claimed_small, claimed: rng.usize_below(4), recipient: rng.usize_below(4), plain: plain(rng), insider, skip_ss: claimed_small && rng.chance(1, 2) }
                     }
                     8..=9 if nfiles >= 2 => {
                         let a = rng.usize_below(nfiles);
@@ -216,14 +291,15 @@ impl Family for A4 {
             } else {
                 let to = rng.usize_below(4);
                 let pub_of = if rng.chance(5, 6) { to } else { rng.usize_below(4) };
-                ops.push(Op::Deliver { file: rng.usize_below(nfiles), to, pub_of, caps: caps(rng) });
+                let nested = if nfiles >= 2 && rng.chance(1, 5) { Some(rng.usize_below(nfiles)) } else { None };
+                ops.push(Op::Deliver { file: rng.usize_below(nfiles), to, pub_of, caps: caps(rng), nested });
             }
         }
         // every file is delivered at least to its most interesting readers
         for f in 0..nfiles {
             for to in 0..4 {
                 if rng.chance(1, 2) {
-                    ops.push(Op::Deliver { file: f, to, pub_of: to, caps: vec![] });
+                    ops.push(Op::Deliver { file: f, to, pub_of: to, caps: vec![], nested: None });
                 }
             }
         }
@@ -266,7 +342,7 @@ impl Family for A4 {
                     );
                     files.push(FileFacts { bytes, coherent: Some((keys[*priv_used], pubs[*claimed], pubs[*recipient], pt)), legit_dh: true });
                 }
-                Op::ForgeZero { point, high_bit, claimed_small, claimed, recipient, plain, insider } => {
+                Op::ForgeZero { point, high_bit, claimed_small, claimed, recipient, plain, insider, skip_ss } => {
                     let pt = plain.bytes();
                     let e_pub = small_order(*point, *high_bit);
                     let mut r = Rng::new(s.entropy_tag ^ (oi as u64) << 8 ^ 0x99);
@@ -285,7 +361,14 @@ impl Family for A4 {
                         // the forger does not know the claimed party's private key: it guesses ss = 0
                         (pubs[*claimed], zero)
                     };
-                    let bytes = forge(&e_pub, &zero, &cl, &ss, &pubs[*recipient], &payload, &pt, &crate::gen::full_chunking(pt.len(), 65536));
+                    // with skip_ss the ephemeral key is the forger's own (es genuine) and only the static key is low-order
+                    let bytes = if *skip_ss {
+                        let mut rr = Rng::new(s.entropy_tag ^ (oi as u64) << 8 ^ 0x5515);
+                        let e = rr.arr32();
+                        forge_opt(&pk(&e), &rp::x25519(&e, &pubs[*recipient]), &cl, None, &pubs[*recipient], &payload, &pt)
+                    } else {
+                        forge(&e_pub, &zero, &cl, &ss, &pubs[*recipient], &payload, &pt, &crate::gen::full_chunking(pt.len(), 65536))
+                    };
                     files.push(FileFacts { bytes, coherent: None, legit_dh: false });
                     out.count("probe.forge_zero", 1);
                 }
@@ -312,10 +395,17 @@ impl Family for A4 {
                     }
                     out.count("probe.recombined", (!same) as u64);
                 }
-                Op::Deliver { file, to, pub_of, caps } => {
+                Op::Deliver { file, to, pub_of, caps, nested } => {
                     let f = &files[*file % files.len()];
                     deliveries += 1;
-                    let (o, sink) = kestrel_decrypt(&keys[*to], &pubs[*pub_of], &f.bytes, caps, &trace);
+                    let (o, sink) = match nested {
+                        None => kestrel_decrypt(&keys[*to], &pubs[*pub_of], &f.bytes, caps, &trace),
+                        Some(n) => {
+                            out.count("probe.nested_decryption", 1);
+                            let inner = files[*n % files.len()].bytes.clone();
+                            kestrel_decrypt_nested(&keys[*to], &pubs[*pub_of], &f.bytes, &inner, &trace)
+                        }
+                    };
                     match &o {
                         Outcome::Panic(m) => out.violations.push(viol("C05", "panic", format!("op {}: {}", oi, m))),
                         Outcome::Hang => out.violations.push(viol("C05", "hang", format!("op {}", oi))),
